@@ -11,7 +11,9 @@
 #define MAXTOK 1024
 #define STALL_CHECKS 6
 
-enum { T_ADD = 0, T_OR = 1, T_REPLACE = 2, T_TIMER = 3, T_READ = 4 };
+enum { T_ADD = 0, T_OR = 1, T_REPLACE = 2, T_TIMER = 3, T_READ = 4, T_WRITE = 5, T_SIGNAL = 6 };
+#define IS_FD(t) ((t) == T_READ || (t) == T_WRITE)
+static int signo_of(int sid) { return (sid & 1) ? SIGUSR2 : SIGUSR1; }
 enum { K_MERGE, K_CANCEL, K_CANCELWAIT, K_SUSPEND, K_RESUME, K_ACTIVATE, K_SETTIMER, K_PWRITE, K_SLEEP, K_WORK, K_AFTER, K_ASYNC, K_SYNC, K_RELEASE, K_NKINDS };
 static const char *kind_names[K_NKINDS] = { "merge", "cancel", "cancelwait", "suspend", "resume", "activate", "settimer", "pwrite", "sleep", "work", "after", "async", "sync", "release" };
 
@@ -31,7 +33,7 @@ typedef struct {
 	long na, nb;                  // timer: settings applied by the handler at invocation settimer_at
 	int clock;                    // 0 uptime 1 wall 2 monotonic
 	dispatch_source_t ds;
-	int fd_r, fd_w;               // READ sources: pipe ends
+	int fd_r, fd_w;               // READ sources: fd_r = monitored read end, fd_w = peer's write end. WRITE sources: fd_r = monitored WRITE end, fd_w = peer's read end
 	_Atomic int invocations, in_handler, cancel_handler_runs, activated, activate_done, cancelled_by_harness, released;
 	_Atomic uint64_t merged_sum, merged_or, delivered_sum, delivered_or, last_delivered;
 	_Atomic int sentinel_seen;
@@ -95,6 +97,11 @@ static void event_handler(int sid) {
 		if (n > 0) atomic_fetch_add(&s->bytes_read, n);
 		logev(EV_VAL, sid, 4, n);
 	}
+	else if (s->type == T_WRITE) {       // fill the (4 kB) pipe in two steps; the source then stays quiet until the peer drains it
+		static const char wbuf[2048] = { 2 }; ssize_t n = write(s->fd_r, wbuf, sizeof wbuf);
+		if (n > 0) atomic_fetch_add(&s->bytes_written, n);
+		logev(EV_VAL, sid, 4, n);
+	}
 	volatile long w = s->hwork; while (w-- > 0) { }
 	if (s->hwork & 1) sched_yield();
 	if (s->settimer_at && inv == s->settimer_at && s->type == T_TIMER) {
@@ -125,10 +132,10 @@ static void registration_handler(int sid) {
 }
 static void cancel_handler(int sid) {
 	src_t *s = &SRC[sid];
-	int mon = (s->type == T_READ) ? fd_monitored(s->fd_r) : -1;
+	int mon = IS_FD(s->type) ? fd_monitored(s->fd_r) : -1;
 	logev(EV_CANCELH, sid, mon, (int64_t)(long)dispatch_get_specific(&TAGKEY));
 	logev(EV_VAL, sid, 5, dispatch_source_testcancel(s->ds));
-	if (s->type == T_READ) { close(s->fd_r); s->fd_r = -1; }     // closing here is what the API promises to be safe
+	if (IS_FD(s->type)) { close(s->fd_r); s->fd_r = -1; }     // closing here is what the API promises to be safe
 	atomic_fetch_add(&s->cancel_handler_runs, 1); fwake_all(&s->cancel_handler_runs);
 	logev(EV_CANCELH_END, sid, 0, 0);
 }
@@ -184,8 +191,10 @@ void exec_op(op_t *op) {
 		static const char buf[8192] = { 1 };
 		long n = op->b > 8192 ? 8192 : op->b;
 		logev(EV_CALL, op->id, (int32_t)op->a, n);
-		ssize_t w = s->fd_w >= 0 ? write(s->fd_w, buf, (size_t)n) : -1;
-		if (w > 0) atomic_fetch_add(&s->bytes_written, w);
+		ssize_t w;
+		if (s->type == T_SIGNAL) w = kill(getpid(), signo_of((int)op->a));        // peer action of a signal source: raise its signal
+		else if (s->type == T_WRITE) { char rb[8192]; w = s->fd_w >= 0 ? read(s->fd_w, rb, (size_t)(n < 512 ? 512 : n)) : -1; }     // ... of a write source: drain the pipe
+		else { w = s->fd_w >= 0 ? write(s->fd_w, buf, (size_t)n) : -1; if (w > 0) atomic_fetch_add(&s->bytes_written, w); }
 		logev(EV_RET, op->id, (int32_t)op->a, w);
 		break; }
 	case K_SLEEP: { struct timespec ts = { op->a / 1000000, (op->a % 1000000) * 1000 }; nanosleep(&ts, 0); break; }
@@ -275,6 +284,10 @@ static int create_objects(void) {
 		case T_TIMER: s->ds = dispatch_source_create(DISPATCH_SOURCE_TYPE_TIMER, 0, (s->flags & 4) ? DISPATCH_TIMER_STRICT : 0, tq); break;
 		case T_READ: { int p[2]; if (pipe(p)) return -1; fcntl(p[0], F_SETFL, O_NONBLOCK); fcntl(p[1], F_SETFL, O_NONBLOCK); s->fd_r = p[0]; s->fd_w = p[1];
 			s->ds = dispatch_source_create(DISPATCH_SOURCE_TYPE_READ, (uintptr_t)p[0], 0, tq); break; }
+		case T_WRITE: { int p[2]; if (pipe(p)) return -1; fcntl(p[0], F_SETFL, O_NONBLOCK); fcntl(p[1], F_SETFL, O_NONBLOCK); fcntl(p[1], F_SETPIPE_SZ, 4096);
+			s->fd_r = p[1]; s->fd_w = p[0];
+			s->ds = dispatch_source_create(DISPATCH_SOURCE_TYPE_WRITE, (uintptr_t)p[1], 0, tq); break; }
+		case T_SIGNAL: s->ds = dispatch_source_create(DISPATCH_SOURCE_TYPE_SIGNAL, (uintptr_t)signo_of(i), 0, tq); break;
 		}
 		if (!s->ds) { fprintf(stderr, "source %d not created\n", i); return -1; }
 		dispatch_source_set_event_handler(s->ds, ^{ event_handler(sid); });
@@ -339,7 +352,7 @@ static void *coordinator(void *arg) {
 		logev(EV_VAL, i, 7, dispatch_source_testcancel(s->ds));
 		logev(EV_VAL, i, 8, atomic_load(&s->invocations));
 		if (s->fd_w >= 0) close(s->fd_w);
-		if (s->type == T_READ && !(s->flags & 1)) { /* no cancel handler: drain the queue before closing the read end */ dispatch_sync(Q[s->tq >= 0 ? s->tq : 0], ^{}); }
+		if (IS_FD(s->type) && !(s->flags & 1)) { /* no cancel handler: drain the queue before closing the monitored end */ dispatch_sync(Q[s->tq >= 0 ? s->tq : 0], ^{}); }
 		dispatch_release(s->ds);
 	}
 	for (int q = MAXQ - 1; q >= 0; q--) if (QD[q].used && QD[q].kind != 2) dispatch_release(Q[q]);
@@ -357,6 +370,7 @@ int main(int argc, char **argv) {
 	int r = load_program(argv[1]);
 	if (r) { fprintf(stderr, "cannot load program (%d)\n", r); return 2; }
 	signal(SIGPIPE, SIG_IGN);      // peers keep writing after a cancel handler has closed the read end
+	signal(SIGUSR1, SIG_IGN); signal(SIGUSR2, SIG_IGN);     // raised before a signal source is registered (or after it is gone) they must not kill the process
 	mode_setup();
 	if (create_objects()) return 2;
 	pthread_t co; pthread_create(&co, 0, coordinator, 0);
